@@ -544,6 +544,12 @@ class Stage:
                     raise Exception("You attempted to set the value of a non-parameter. Did you mean ocp.set_initial()? Got " + str(parameter))
                 self._param_vals[parameter] = value
         for_all_primitives(parameter, value, action, "First argument to set_value must be a parameter or a simple concatenation of parameters", rhs_type=DM)
+        if self.master is not None and self.master.is_transcribed and self._initial:
+            # Guesses may depend on parameter values (e.g. a parametric horizon moves the times
+            # at which time-dependent guesses are evaluated): re-evaluate them, as set_initial does
+            self._method.set_initial(self._augmented, self.master._method, self._initial)
+            if self._method.set_initial_time_grid(self._augmented, self.master._method):
+                self._method.set_initial(self._augmented, self.master._method, self._initial)
 
 
     def set_initial(self, var, value, priority=True):
